@@ -10,22 +10,23 @@ open Pedal.Wire
 /-- the protocol facts of the tree under test -/
 def cfg : Cfg :=
   { claim := Pedal.Gen.Timeout.claim, handlerPops := Pedal.Gen.Timeout.handlerPops,
-    handlerBumps := Pedal.Gen.Timeout.handlerBumps }
+    handlerBumps := Pedal.Gen.Timeout.handlerBumps, termTolerant := Pedal.Gen.Timeout.termTolerant }
 
 /-- the machine of the tree under test -/
 def run (p : Prog) (sched : List Act) : St := runSched cfg p init sched
 
-/-- `sched <claim><pops><bumps>|gen <prints><swallows><blocked> <acts>` -/
+/-- `sched <claim><pops><bumps><tolerant>|gen <prints><swallows><blocked> <acts>` -/
 def handleSched : List String → String
   | [c, p, acts] =>
     let cfg? : Option Cfg :=
       if c = "gen" then some cfg
       else match c.toList with
-        | [a, b, d] => do
+        | [a, b, d, e] => do
           let a ← decBool (String.singleton a)
           let b ← decBool (String.singleton b)
           let d ← decBool (String.singleton d)
-          pure { claim := a, handlerPops := b, handlerBumps := d }
+          let e ← decBool (String.singleton e)
+          pure { claim := a, handlerPops := b, handlerBumps := d, termTolerant := e }
         | _ => none
     let p? : Option Prog := match p.toList with
       | [a, b, d] => do
@@ -40,7 +41,7 @@ def handleSched : List String → String
   | _ => "bad-request"
 
 def handleCfg : List String → String
-  | [] => s!"ok claim={encBool cfg.claim} pops={encBool cfg.handlerPops} bumps={encBool cfg.handlerBumps}"
+  | [] => s!"ok claim={encBool cfg.claim} pops={encBool cfg.handlerPops} bumps={encBool cfg.handlerBumps} tolerant={encBool cfg.termTolerant}"
   | _ => "bad-request"
 
 
